@@ -630,7 +630,7 @@ struct LRec
   std::atomic<int> fires{0};
   uint64_t delayMs = 0;
 };
-static const int kLongVariants = 6;
+static const int kLongVariants = 10;
 static bool runLongHandler(uint64_t seed, uint64_t variant)
 {
   auto &O = vf::out();
@@ -642,16 +642,23 @@ static bool runLongHandler(uint64_t seed, uint64_t variant)
   //    3 TimerService destructor        long handler 5.6 s
   //    4 TimingWheel stop()             long callback 2.5 s
   //    5 TimingWheel drain(300)         long callback 2.5 s due at the drain
-  static const int longMs[] = {5600, 1600, 5600, 5600, 2500, 2500};
-  const char *names[] = {"timerservice", "timerservice", "timerpool", "timerservice", "wheel1", "wheel1"};
-  const char *hows[] = {"stop", "stop-after-timed-out-drain", "stop", "destructor", "stop", "drain-with-timeout"};
+  //    6 TimerService: stop() while ANOTHER thread's drain(300) is waiting and then times out   long handler 1.3 s
+  //    7 TimerService: a SECOND, concurrent stop() while another thread's stop() (whose 5 s drain has timed out) is joining    long handler 5.7 s
+  //    8 TimingWheel: stop() while ANOTHER thread's drain() is firing a 1 s callback (the tick thread was kept busy
+  //      300 ms so that due timers piled up for the drain to fire)
+  static const int longMs[] = {5600, 1600, 5600, 5600, 2500, 2500, 1300, 5700, 300, 1};
+  //    9 TimerServicePool(2): pool.stop() while another thread is inside drain(1500) on one of its services, with
+  //      timers of that service pending inside the drain window (no long handler: the pool has to stop a DRAINING service too)
+  const char *names[] = {"timerservice", "timerservice", "timerpool", "timerservice", "wheel1", "wheel1", "timerservice", "timerservice", "wheel1", "timerpool"};
+  const char *hows[] = {"stop", "stop-after-timed-out-drain", "stop", "destructor", "stop", "drain-with-timeout",
+                        "stop-during-drain-of-another-thread", "second-concurrent-stop", "stop-during-drain-of-another-thread", "pool-stop-during-drain-of-a-service"};
   std::string N = names[v];
   std::unique_ptr<TimerService> ts;
   std::unique_ptr<TimerServicePool> pool;
   std::unique_ptr<TimingWheel> wheel;
   TimerServiceConfig cfg;
-  if (v == 0 || v == 1 || v == 3) { ts.reset(new TimerService(cfg, std::make_shared<NullLogger>())); ts->setErrorHandler([](TimerError, const std::string &, int) {}); }
-  else if (v == 2) pool.reset(new TimerServicePool(2, cfg, std::make_shared<NullLogger>()));
+  if (v == 0 || v == 1 || v == 3 || v == 6 || v == 7) { ts.reset(new TimerService(cfg, std::make_shared<NullLogger>())); ts->setErrorHandler([](TimerError, const std::string &, int) {}); }
+  else if (v == 2 || v == 9) pool.reset(new TimerServicePool(2, cfg, std::make_shared<NullLogger>()));
   else { wheel.reset(new TimingWheel(std::chrono::milliseconds(2), 16, 2)); wheel->start(); }
   std::atomic<bool> gone{false}; // the service object no longer exists (destructor variant)
   TimerService *tsp = ts.get(); TimerServicePool *poolp = pool.get(); TimingWheel *wheelp = wheel.get();
@@ -667,7 +674,7 @@ static bool runLongHandler(uint64_t seed, uint64_t variant)
   std::atomic<size_t> nextRec{0};
   std::atomic<int> inHandlers{0};
   std::atomic<uint64_t> longEntryNs{0}, longExitNs{0};
-  std::atomic<uint64_t> shutdownCallNs{0}, fenceNs{0}, drainCallNs{0}, drainRetNs{0};
+  std::atomic<uint64_t> shutdownCallNs{0}, fenceNs{0}, drainCallNs{0}, drainRetNs{0}, otherStopCallNs{0};
   auto body = [&inHandlers](LRec *r) {
     uint64_t t = vf::nowNs();
     if (r->fires.fetch_add(1) == 0) r->entryNs.store(t);
@@ -733,16 +740,64 @@ static bool runLongHandler(uint64_t seed, uint64_t variant)
     // a drain that reported failure leaves the service running: it must keep firing what it accepts
     vf::sleepMs(double(lm) + 900.0 - double((vf::nowNs() - longEntryNs.load()) / 1000000));
   }
+  // concurrent lifecycle calls: another thread is inside drain() / stop() when the judged stop() is called
+  std::thread other;
+  std::atomic<uint64_t> secondLongEntryNs{0}, secondLongExitNs{0};
+  if (v == 6)
+  {
+    other = std::thread([&]() { drainCallNs.store(vf::nowNs()); auto dr = ts->drain(300); drainRetNs.store(vf::nowNs()); if (!dr.success) O.obs("long_drain_timed_out"); });
+    for (int i = 0; i < 2000 && !drainCallNs.load(); i++) vf::sleepMs(0.1);
+    vf::sleepMs(double(rng.range(40, 150))); // the other thread's drain is waiting; it will time out while our stop() joins
+  }
+  else if (v == 7)
+  {
+    other = std::thread([&]() { otherStopCallNs.store(vf::nowNs()); ts->stop(); });
+    for (int i = 0; i < 2000 && !otherStopCallNs.load(); i++) vf::sleepMs(0.1);
+    // the other stop() drains for 5 s, gives up and joins the timer thread, whose handler runs until ~5.7 s: call ours in that window
+    vf::sleepMs(5000.0 + double(rng.range(150, 450)) - double((vf::nowNs() - otherStopCallNs.load()) / 1000000));
+  }
+  else if (v == 9)
+  {
+    // timers due 900-1250 ms from now on ONE service (inside the window of the drain(1500) another thread then starts on
+    // it); the other service has nothing pending for long, so pool.stop() does not linger on it
+    TimerService *svc0 = &poolp->getService();
+    for (int i = 0; i < 8; i++)
+    {
+      size_t k = nextRec.fetch_add(1);
+      if (k >= NREC) break;
+      LRec *r = recs[k].get();
+      r->delayMs = uint64_t(900 + 50 * i);
+      r->callNs.store(vf::nowNs());
+      uint64_t id = svc0->scheduleAfter(std::chrono::milliseconds(r->delayMs), [r, &body]() { body(r); });
+      r->retNs.store(vf::nowNs());
+      r->id.store(id ? id : ~0ull);
+    }
+    other = std::thread([&, svc0]() { drainCallNs.store(vf::nowNs()); auto dr = svc0->drain(1500); drainRetNs.store(vf::nowNs()); (void)dr; });
+    for (int i = 0; i < 20000 && svc0->getState() != iora::common::LifecycleState::Draining; i++) vf::sleepMs(0.1);
+    if (svc0->getState() == iora::common::LifecycleState::Draining) O.obs("long_pool_service_draining_when_pool_stop_called");
+    vf::sleepMs(double(rng.range(10, 80)));
+  }
+  else if (v == 8)
+  {
+    // a second, 1 s callback that is due while the tick thread is busy: the other thread's drain() will fire it
+    sched(40, [&]() { secondLongEntryNs.store(vf::nowNs()); inHandlers.fetch_add(1); vf::sleepMs(1000); secondLongExitNs.store(vf::nowNs()); inHandlers.fetch_sub(1); });
+    other = std::thread([&]() { drainCallNs.store(vf::nowNs()); wheel->drain(std::chrono::milliseconds(5000)); drainRetNs.store(vf::nowNs()); });
+    for (int i = 0; i < 40000 && !secondLongEntryNs.load() && !drainRetNs.load(); i++) vf::sleepMs(0.1);
+    if (secondLongEntryNs.load()) O.obs("long_wheel_drain_firing_when_stop_called");
+    vf::sleepMs(double(rng.range(50, 300)));
+  }
   int inAtReturn = 0;
   shutdownCallNs.store(vf::nowNs());
-  if (v == 0 || v == 1) { auto r = ts->stop(); claimed = r.success; msg = r.message; }
-  else if (v == 2) pool->stop();
+  if (v == 0 || v == 1 || v == 6 || v == 7) { auto r = ts->stop(); claimed = r.success; msg = r.message; }
+  else if (v == 8) wheel->stop();
+  else if (v == 2 || v == 9) pool->stop();
   else if (v == 3) { TimerService *p = ts.get(); gone.store(true); vf::sleepMs(30); shutdownCallNs.store(vf::nowNs()); ts.release(); delete p; }
   else if (v == 4) wheel->stop();
   else { auto st = wheel->drain(std::chrono::milliseconds(300)); msg = "fired=" + std::to_string(st.fired) + " remaining=" + std::to_string(st.remaining) + " cancelled=" + std::to_string(st.cancelled); }
   inAtReturn = inHandlers.load();
   fenceNs.store(vf::nowNs());
   done = true; wd.join();
+  if (other.joinable()) other.join();
   uint64_t tookMs = (fenceNs.load() - shutdownCallNs.load()) / 1000000;
   vf::sleepMs(500); // schedulers go on for a while: everything they get accepted now is "after stop returned"
   stopSched = true;
